@@ -71,17 +71,24 @@ pub(crate) fn process_batch_response(
 		responses.push(Response::new(jsonrpsee_types::ResponsePayload::error(err_obj), Id::Null).into());
 	}
 
+	// A second answer to an entry answers nothing that is pending.
+	let mut answered = vec![false; responses.len()];
+
 	for rp in rps {
 		let id = rp.id().try_parse_inner_as_number()?;
 		// Only an ID of the kind this client uses can be the ID of one of its requests.
 		if !manager.is_own_id(rp.id(), id) {
 			return Err(InvalidRequestId::NotPendingRequest(rp.id().to_string()));
 		}
-		let maybe_elem =
-			id.checked_sub(start_idx).and_then(|p| p.try_into().ok()).and_then(|p: usize| responses.get_mut(p));
+		let maybe_elem = id
+			.checked_sub(start_idx)
+			.and_then(|p| p.try_into().ok())
+			.filter(|p: &usize| !answered.get(*p).copied().unwrap_or(true))
+			.and_then(|p: usize| responses.get_mut(p).map(|elem| (p, elem)));
 
-		if let Some(elem) = maybe_elem {
+		if let Some((p, elem)) = maybe_elem {
 			*elem = rp;
+			answered[p] = true;
 		} else {
 			return Err(InvalidRequestId::NotPendingRequest(rp.id().to_string()));
 		}
